@@ -477,12 +477,19 @@ pub struct EvalState<'a> {
     checked_vars: Vec<String>,
     // Current nesting depth of the recursive-descent parser
     depth: usize,
+    // Variable lookups made so far for the expression being evaluated
+    lookups: usize,
 }
 
 /// Maximum nesting (parentheses, unary minus, function calls) of an expression.
 /// The parser is recursive; without a bound a long run of '(' or '-' exhausts
 /// the stack and aborts the process.
 const MAX_EXPR_DEPTH: usize = 100;
+
+/// Maximum number of variable lookups in the evaluation of one expression. Variables
+/// which refer to variables are evaluated again at every use: `a="$b + $b"`, `b="$c + $c"`,
+/// ... doubles the work with every level, which a nesting limit alone does not bound.
+const MAX_EXPR_LOOKUPS: usize = 10_000;
 
 impl<'a> EvalState<'a> {
     fn new(
@@ -496,6 +503,7 @@ impl<'a> EvalState<'a> {
             context,
             checked_vars: Vec::from(checked_vars),
             depth: 0,
+            lookups: 0,
         }
     }
 
@@ -539,6 +547,12 @@ impl<'a> EvalState<'a> {
         if self.checked_vars.iter().contains(&String::from(v)) {
             return Err(SvgdxError::CircularRefError(v.to_owned()));
         }
+        self.lookups += 1;
+        if self.lookups > MAX_EXPR_LOOKUPS {
+            return Err(SvgdxError::ParseError(format!(
+                "Expression needs more than {MAX_EXPR_LOOKUPS} variable lookups"
+            )));
+        }
         self.checked_vars.push(v.to_string());
         let result = if let Some(inner) = self.context.get_var(v) {
             let tokens = tokenize(&inner)?;
@@ -550,7 +564,10 @@ impl<'a> EvalState<'a> {
                 // chain of variables is bounded like any other nesting (an error, not a stack
                 // overflow)
                 es.depth = self.depth;
-                let e = expr_list(&mut es)?;
+                es.lookups = self.lookups;
+                let e = expr_list(&mut es);
+                self.lookups = es.lookups;
+                let e = e?;
                 if es.peek().is_none() {
                     Ok(e)
                 } else {
